@@ -772,7 +772,7 @@ struct elements_iterator_t : boost::multi::random_accessable<elements_iterator_t
 	template<typename, class> friend struct elements_range_t;
 
 	constexpr elements_iterator_t(pointer base, layout_type const& lyt, difference_type n)
-	: base_{base}, l_{lyt}, n_{n}, xs_{l_.extensions()}, ns_{lyt.is_empty()?indices_type{}:xs_.from_linear(n)} {}
+	: base_{base}, l_{lyt}, n_{n}, xs_{l_.extensions()}, ns_{(lyt.num_elements() == 0)?indices_type{}:xs_.from_linear(n)} {}
 
  public:
 	elements_iterator_t() = default;
